@@ -349,6 +349,8 @@ def pack_shifts(sh):
 
 # ------------------------------------------------------------------------------------------------------
 def run_case(case, res):
+    if case.get("linalg"):
+        return run_linalg_case(case, res)
     out = []
     desc = case["desc"]
     cls = desc[0]
@@ -490,7 +492,109 @@ def origin_of(val, ref):
     return f" (that value belongs to {hits[:3]})" if hits else ""
 
 
+# -- linalg.generic paths of hwpe_mult and alu (hard-coded value lists for the default configuration) -----------------------------
+def run_linalg_case(case, res):
+    """linalg.generic {library_call} on 1-D memrefs -> real convert-linalg-to-accfg -> registers compared by name."""
+    out = []
+    cls, n, offs = case["cls"], case["n"], case["offsets"]
+    el = "i32" if cls == "hwpe" else "i64"
+    elsize = 4 if cls == "hwpe" else 8
+    lib = "snax_hwpe_mult" if cls == "hwpe" else "snax_alu"
+    c = make_ctx()
+    acc = c.get_acc(lib)
+    accop = acc.generate_acc_op()
+    tys = [f"memref<{n}x{el}, strided<[1], offset: {o}>>" if o else f"memref<{n}x{el}>" for o in offs]
+    text = f"""builtin.module {{
+  func.func @main(%a: {tys[0]}, %b: {tys[1]}, %o: {tys[2]}) {{
+    "linalg.generic"(%a, %b, %o) <{{indexing_maps = [affine_map<(d0) -> (d0)>, affine_map<(d0) -> (d0)>, affine_map<(d0) -> (d0)>], iterator_types = [#linalg.iterator_type<parallel>], operandSegmentSizes = array<i32: 2, 1>, library_call = "{lib}"}}> ({{
+    ^bb0(%x: {el}, %y: {el}, %z: {el}):
+      %r = arith.muli %x, %y : {el}
+      "linalg.yield"(%r) : ({el}) -> ()
+    }}) : ({", ".join(tys)}) -> ()
+    func.return
+  }}
+}}
+"""
+    res["evaluations"] += 1
+    try:
+        m = parse(c, text)
+        m.body.block.insert_op_before(accop, m.body.block.first_op)
+        m.verify()
+        run_passes_limited(c, m, "convert-linalg-to-accfg", 5)
+        m.verify()
+    except PassTimeout:
+        R.reject(res, "PassTimeout")
+        return out
+    except Exception as e:
+        R.reject(res, e)
+        return out
+    setups = [op for op in m.walk() if op.name == "accfg.setup"]
+    if len(setups) != 1:
+        R.reject(res, f"no-single-setup:{len(setups)}")
+        return out
+    names = [x.data for x in setups[0].param_names.data]
+    declared = list(accop.fields.data.keys())
+    res["programs"] += 1
+    if names != declared or len(setups[0].values) != len(declared):
+        out.append({"kind": "value-count-differs-from-field-count", "detail": f"{len(setups[0].values)} values / {len(names)} names / {len(declared)} declared", "case": case, "info": {"cls": cls}})
+        return out
+
+    class M(AccfgMachine):
+        def __init__(self, mod, descs):
+            super().__init__(mod)
+            self.handlers["memref.extract_aligned_pointer_as_index"] = lambda op: self.set_results(op, [self.get(op.operands[0])["ptr"]])
+            self.handlers["memref.dim"] = lambda op: self.set_results(op, [self.get(op.operands[0])["n"]])
+            self.handlers["memref.extract_strided_metadata"] = lambda op: self.set_results(op, [self.get(op.operands[0]), self.get(op.operands[0])["off"], self.get(op.operands[0])["n"], 1][: len(op.results)])
+
+    ptrs = [0x2000_0000 + 0x10000 * i for i in range(3)]
+    descs = [{"ptr": p, "n": n, "off": o} for p, o in zip(ptrs, offs)]
+    mach = M(m, descs)
+    try:
+        mach.run_func("main", descs)
+    except (Unsupported, MachineError, UseBeforeDef, StepBudget) as e:
+        out.append({"kind": "emitted-program-fails", "detail": f"{type(e).__name__}: {e}"[:300], "case": case, "info": {"cls": cls}})
+        return out
+    launches = [e for e in mach.events if e[0] == "L"]
+    if len(launches) != 1:
+        out.append({"kind": "not-exactly-one-launch", "detail": f"{len(launches)} launches", "case": case, "info": {"cls": cls}})
+        return out
+    regs = launches[0][3]
+    start = [p + o * elsize for p, o in zip(ptrs, offs)]
+    if cls == "hwpe":
+        ref = {"A": start[0], "B": start[1], "O": start[2], "vector_length": n, "nr_iters": 1, "mode": ("skip",)}
+    else:
+        ref = {}
+        for x, st in zip("abc", start):
+            ref.update({f"{x}_ptr_low": st, f"{x}_ptr_high": 0, f"{x}_sstride_0": 8, f"{x}_bound_0": n // 4, f"{x}_tstride_0": 32})
+        ref["alu_mode"] = ("skip",)
+        ref["loop_bound_alu"] = n // 4
+    res["compared"] += 1
+    R.bump(res, "linalg_path_setups_checked")
+    for f in declared:
+        want = ref.get(f, ("skip",))
+        got = regs.get(f)
+        R.bump(res, "fields_compared")
+        if isinstance(want, tuple):
+            continue
+        if isinstance(got, Poison) or got is None or wrap(got, 32) != wrap(want, 32):
+            out.append(
+                {
+                    "kind": "field-holds-value-with-another-meaning",
+                    "detail": f"[{lib} linalg path] {f} = {got} expected {want}",
+                    "case": case,
+                    "info": {"cls": cls, "field": f, "got": None if isinstance(got, Poison) or got is None else wrap(got, 32), "regs": {k: (v if isinstance(v, int) else None) for k, v in regs.items()}, "n": n},
+                }
+            )
+            return out
+    R.nontrivial(res, "linalg-path", cls, n, tuple(offs))
+    return out
+
+
 def gen_case(rng):
+    if rng.random() < 0.12:
+        cls = rng.choice(["hwpe", "alu"])
+        n = rng.choice([4, 8, 12, 16, 20, 64, 100]) if cls == "hwpe" else rng.choice([4, 8, 12, 16, 20, 64])
+        return {"linalg": True, "cls": cls, "n": n, "offsets": [rng.choice([0, 0, 4, 8]) for _ in range(3)]}
     cls = rng.choice(["alu", "gemmx", "gemmx", "xdma"])
     desc = AD.gen_desc(rng, classes=(cls,), p_default=0.25)
     acc = AD.build(desc)
@@ -535,6 +639,16 @@ def attribute(v):
     """Known findings by mechanism: predicate on the case + counterfactual re-run."""
     info = v.get("info") or {}
     case = v.get("case")
+    if v["kind"] == "field-holds-value-with-another-meaning" and info.get("cls") == "hwpe" and info.get("field") in ("vector_length", "nr_iters"):
+        # predicate: exactly the two values are exchanged between the two names; counterfactual: the names exchanged in the field tuple
+        regs = info.get("regs") or {}
+        if regs.get("vector_length") == 1 and regs.get("nr_iters") == info.get("n"):
+            from vf.counterfactual.hwpe_names import hwpe_field_names_exchanged
+
+            with hwpe_field_names_exchanged():
+                again = run_case(case, R.new_result())
+            if not again:
+                return "hwpe-mult-vector-length-and-nr-iters-names-exchanged"
     if v["kind"] == "loop-count-disagrees-with-stream-steps" and info.get("cls") == "alu":
         # predicate: the alu streamers have more than one temporal dimension in use and the register holds exactly the innermost bound
         if len(case["pats"][0]["ub"]) > 1 and info.get("got") == info.get("innermost"):
@@ -558,7 +672,7 @@ def run_shard(seed, shard, n_cases, tier):
             continue
         for v in run_case(case, res):
             R.violation(res, v["kind"], v["detail"], v["case"], attribute(v), info=v.get("info"))
-        R.seen(res, "kernels", f"{case['desc'][0]}:{case['kernel']}")
+        R.seen(res, "kernels", f"{case['desc'][0]}:{case['kernel']}" if not case.get("linalg") else f"linalg-path:{case['cls']}")
         if i < 2 and shard == 0:
             R.sample(res, {k: (repr(v) if k == "desc" else v) for k, v in case.items()})
     return res
@@ -571,5 +685,6 @@ def _norm_desc(desc):
 def replay(case):
     res = R.new_result()
     case = dict(case)
-    case["desc"] = _norm_desc(case["desc"])
+    if not case.get("linalg"):
+        case["desc"] = _norm_desc(case["desc"])
     return run_case(case, res)
